@@ -301,6 +301,8 @@ pub mod unit {
                 minute(final(api).fields()) >= minute(old(api).fields()),
                 // the configuration is never written
                 final(api).fields()[I_CONFIG()] == old(api).fields()[I_CONFIG()],
+                // link to the history lemma below
+                ret is Ok ==> committed_step(view(old(api).fields()), view(final(api).fields())),
         @*/
 
         /*@fn radix-engine/src/blueprints/consensus_manager/consensus_manager.rs :: impl ConsensusManagerBlueprint :: fn start
@@ -320,7 +322,44 @@ pub mod unit {
                 final(api).fields()[I_MILLI()] == old(api).fields()[I_MILLI()],
                 final(api).fields()[I_MINUTE()] == old(api).fields()[I_MINUTE()],
                 final(api).fields()[I_CONFIG()] == old(api).fields()[I_CONFIG()],
+                ret is Ok ==> committed_step(view(old(api).fields()), view(final(api).fields())),
         @*/
+    }
+
+    // ------------------------------------------------------------------------------------------
+    // History lemma: "every sequence of round-change system transactions".  A transaction either
+    // commits the effect of an Ok `next_round` (contract above: `committed_step`) or is rolled back
+    // (state as before).  Over any such sequence the clocks never decrease, (epoch, round) never
+    // decreases lexicographically and the epoch grows by at most one per transaction.
+    // ------------------------------------------------------------------------------------------
+    pub struct Clock { pub milli: int, pub minute: int, pub epoch: int, pub round: int }
+    pub open spec fn view(h: Heap) -> Clock {
+        Clock { milli: milli(h), minute: minute(h), epoch: state(h).epoch.0 as int, round: state(h).round.0 as int }
+    }
+    pub open spec fn committed_step(a: Clock, b: Clock) -> bool {
+        &&& b.milli >= a.milli
+        &&& b.minute >= a.minute
+        &&& ((b.epoch == a.epoch && b.round > a.round) || (b.epoch == a.epoch + 1 && b.round == 0))
+    }
+    pub open spec fn tx_step(a: Clock, b: Clock) -> bool { b == a || committed_step(a, b) }
+    pub open spec fn lex_le(a: Clock, b: Clock) -> bool { a.epoch < b.epoch || (a.epoch == b.epoch && a.round <= b.round) }
+    pub open spec fn is_history(s: Seq<Clock>) -> bool {
+        forall|i: int| #![trigger s[i]] 0 <= i < s.len() - 1 ==> tx_step(s[i], s[i + 1])
+    }
+    pub proof fn lemma_history(s: Seq<Clock>, i: int, j: int)
+        requires is_history(s), 0 <= i <= j < s.len()
+        ensures
+            s[i].milli <= s[j].milli,
+            s[i].minute <= s[j].minute,
+            lex_le(s[i], s[j]),
+            s[j].epoch - s[i].epoch <= j - i,
+            s[i].epoch <= s[j].epoch,
+        decreases j - i
+    {
+        if i < j {
+            lemma_history(s, i, j - 1);
+            assert(tx_step(s[j - 1], s[j - 1 + 1]));
+        }
     }
 }
 } // verus!
